@@ -88,6 +88,10 @@ func RuleW1(keep fnFilter, floor int) Rule {
 					// a function that did not exist when the policy table was frozen: a method may set its own
 					// (non-configuration) receiver; its other parameters remain read-only
 					c.OK("W1", key, fn.Pos(), "function not in the frozen policy table: writing its own non-configuration receiver is accepted", st.describe(s.Causes["param:"+p.Name()]))
+				case !listed && fn.Object() != nil && !fn.Object().Exported():
+					// an unexported function the frozen table has never seen (an extracted helper) has no contract of
+					// its own: what it writes is charged to its callers through their summaries, and judged there
+					c.OK("W1", key, fn.Pos(), "unexported function not in the frozen policy table: its writes are judged at its (listed) callers", st.describe(s.Causes["param:"+p.Name()]))
 				case allowed:
 					c.OK("W1", key, fn.Pos(), "written; allowed by policy: "+reason, st.describe(s.Causes["param:"+p.Name()]))
 				case deepAllowed && !s.WS[i]:
